@@ -49,7 +49,7 @@ FAULT_KINDS = {
     "C04": ["platform_crypt_lacks_format", "cold_record", "rng_min", "rng_max", "cost_beyond_hard_limit", "legacy_below_min", "legacy_above_max", "policy_update"],
     "C08": ["platform_crypt_lacks_format", "cold_start", "subst", "delete", "dup", "insert", "truncate", "empty", "other_record", "other_scheme", "swap_fields", "nul", "nonascii",
             "garbage", "numeric_alias", "respell", "as_bytes"],
-    "C10": ["platform_crypt_lacks_format", "restart_via_object", "using_raises", "invalid_item", "policy_file_missing", "policy_file_unreadable", "policy_file_read_error",
+    "C10": ["platform_crypt_lacks_format", "change_is_first_use_of_lazy_context", "restart_via_object", "using_raises", "invalid_item", "policy_file_missing", "policy_file_unreadable", "policy_file_read_error",
             "policy_file_truncated", "policy_file_wrong_section", "policy_file_not_utf8", "restart_via_dict", "restart_via_ini",
             "restart_via_file"],
     "C18": ["platform_crypt_lacks_format", "disable_twice", "bare_marker", "empty_record", "none_record", "policy_update", "restart", "neighbour_context"],
@@ -455,8 +455,8 @@ def _gen_config_program(rng, tier):
     faulty = rng.random() < 0.45 and not any(w in cfg["schemes"] for w in WRAPPERS)
     ops = []
     for _ in range(rng.randint(3, 9 if tier == "quick" else 14)):
-        k = rng.choices(["export_import", "empty_update", "valid_update", "failed_using", "failed_item", "failed_file", "copy"],
-                        [4, 1, 3, 3 if faulty else 0, 4, 2, 1])[0]
+        k = rng.choices(["export_import", "empty_update", "valid_update", "failed_using", "failed_item", "failed_file", "copy", "lazy_first"],
+                        [4, 1, 3, 3 if faulty else 0, 4, 2, 1, 1.5])[0]
         if k == "export_import":
             ops.append({"op": k, "form": rng.choice(["dict", "dict_resolved", "string", "file", "from_string", "kwds", "load_ctx", "load_lazy", "update_ctx"])})
         elif k in ("empty_update", "copy"):
@@ -470,6 +470,9 @@ def _gen_config_program(rng, tier):
         elif k == "failed_item":
             ops.append({"op": k, "kind": rng.choice(INVALID_KINDS), "delta": _delta(rng, cfg, truncate=True), "how": rng.choice(["update", "load_update", "load_replace", "ini_text"]),
                         "cat": rng.choice(CATS)})
+        elif k == "lazy_first":
+            ops.append({"op": k, "kind": rng.choice(INVALID_KINDS + ["valid", "valid"]), "delta": _delta(rng, cfg, truncate=True), "cat": rng.choice(CATS),
+                        "how": rng.choice(["update", "update", "load_update", "update_dict"]), "onload": rng.random() < 0.4})
         elif k == "failed_file":
             ops.append({"op": k, "fault": rng.choice(["missing", "unreadable", "read_error", "truncated", "wrong_section", "not_utf8"]),
                         "delta": _delta(rng, cfg, truncate=True), "update": rng.random() < 0.5})
@@ -730,6 +733,15 @@ class _PolicyRun:
         with warnings.catch_warnings():
             warnings.simplefilter("ignore")
             h = f.handler.using(**kw).hash(op["pw"])
+        if s == "bcrypt" and op.get("r", 0) < 0.35:
+            # a record written by an old implementation: '$2a$' with stray padding bits in the last salt character (passlib issue 25);
+            # it verifies, and the scheme itself flags it for an update
+            with warnings.catch_warnings():
+                warnings.simplefilter("ignore")
+                h = f.handler.using(ident="2a", **kw).hash(op["pw"])
+            if len(h) == 60 and h[28] in ".Oeu":
+                h = h[:28] + {".": "/", "O": "P", "e": "f", "u": "v"}[h[28]] + h[29:]
+                self.ctx.probe("bcrypt_2a_padding_bits")
         self.table[op["user"]] = (h, op["pw"])
         if f.has_rounds:
             lo, hi = self.model.window(s, op["cat"])
@@ -769,6 +781,8 @@ class _PolicyRun:
         elif self.alt():
             self.ctx.probe("entry_point_alias")
             r = _call(self.cc.hash_needs_update, h, None, cat)  # legacy alias, (hash, scheme, category) positionally
+        elif self.ctx.n_ops % 3 == 1:
+            r = _call(self.cc.needs_update, h.encode("utf-8"), category=cat)  # the stored record as bytes
         else:
             r = _call(self.cc.needs_update, h, category=cat)
         self.ctx.log("needs_update", op["user"], cat, r[:2])
